@@ -66,6 +66,8 @@ def judge(cfg, obs):
             return ('tx', e[1], e[3])
         if e[0] == 'rx':
             return ('rx', e[1], e[5])
+        if e[0] == 'krx':
+            return ('ack', e[1], e[2])
         return ('rx', e[1], e[2])
     nw = [norm(e) for e in wire]
     stale = set(cfg.get('stale', ()))
@@ -83,6 +85,13 @@ def judge(cfg, obs):
             else:
                 ok = False
         j = i + 1
+        if ok and wire[i][0] == 'tx':
+            # bridged: the acknowledges of the Send Message wrappers are read by the same thread first
+            for _ in range(wire[i][8].get('depth', 0)):
+                if j < len(nw) and nw[j] == ('ack', a[1], a[2]):
+                    j += 1
+                elif j < len(nw):
+                    ok = False
         if ok and a[2] in stale and wire[i][0] == 'tx':
             # the BMC sent an unrelated frame (payload n + 100) first: the same thread has to read past it
             if j < len(nw) and nw[j] == ('rx', a[1], a[2] + 100):
@@ -97,6 +106,9 @@ def judge(cfg, obs):
                               % (i, ' '.join('%s%d' % (e[0], e[1]) for e in wire))))
             break
         i = j + 1
+    # nothing is left unread on the socket
+    if obs['status'] == 'ok' and obs.get('unread'):
+        fails.append(('c14:reply-left-unread', 'datagram(s) left unread on the socket at the end: %s' % obs['unread']))
     # session sequence numbers strictly increasing in transmission order
     if cfg.get('active', True):
         seqs = [e[3] for e in wire if e[0] == 'tx']     # IPMI datagrams only (ASF has none)
@@ -193,7 +205,8 @@ def lN(xs):
 
 
 def term(cfg, obs):
-    progs = C.c_list([C.c_list(['(%d, %d)' % (n, c) for n, c in th['reqs']]) for th in cfg['threads']])
+    progs = C.c_list([C.c_list(['(%d, %d, %d)' % (n, c, th.get('routing', 0)) for n, c in th['reqs']])
+                      for th in cfg['threads']])
     tr = [lN([t, KIND[k], v]) for t, k, v in obs['trace'] if k in KIND]
     wire = []
     for e in obs['wire']:
@@ -201,6 +214,8 @@ def term(cfg, obs):
             wire.append(lN([0, e[1], e[2], e[3], e[4], e[5], e[6]]))
         elif e[0] == 'rx':
             wire.append(lN([1, e[1], e[2], e[3], e[4], e[5]]))
+        elif e[0] == 'krx':
+            wire.append(lN([4, e[1], e[2]]))
         elif e[0] == 'atx':     # ASF traffic: not produced by the model -> the case mismatches
             wire.append(lN([2, e[1], e[2], e[3]]))
         else:
@@ -278,8 +293,11 @@ GDI = [6, 1]
 def configs(quick):
     ka = lambda n: {'kind': 'keepalive', 'reqs': [GDI] * n}
 
-    def raw(*r, target=0x20):
-        return {'kind': 'raw', 'reqs': [list(x) for x in r], 'target': target}
+    def raw(*r, target=0x20, routing=0):
+        d = {'kind': 'raw', 'reqs': [list(x) for x in r], 'target': target}
+        if routing:
+            d['routing'] = routing      # bridged: number of Send Message wrappers
+        return d
     msg = lambda n: {'kind': 'msg', 'reqs': [GDI] * n}
     SEL = (0x0a, 0x10)
     cs = [
@@ -301,6 +319,13 @@ def configs(quick):
                       'max_retries': 1, 'lose': [0]}),
         ('2x2-lost', {'threads': [raw(SEL, GDI, target=0x82), ka(2)], 'nsn0': 62, 's0': WRAP - 2, 'auth': 0,
                       'max_retries': 1, 'lose': [1, 4]}),
+        # bridged targets (Send Message; the BMC acknowledges, then forwards the reply) next to direct
+        # requests and the keep-alive on the same interface; retries 0 and > 0
+        ('2x1-bridged', {'threads': [raw(SEL, routing=1), ka(1)], 'nsn0': 0, 's0': 5, 'auth': 0}),
+        ('2x2-bridged2', {'threads': [raw(GDI, SEL, routing=2), ka(2)], 'nsn0': 62, 's0': 50, 'auth': 2,
+                          'max_retries': 1, 'stale': [0], 'lose': [2], 'quick_bound': 1}),
+        ('3x1-bridged', {'threads': [raw(SEL, routing=1), raw(GDI), ka(1)], 'nsn0': 63, 's0': 7, 'auth': 0,
+                         'quick_bound': 1}),
     ]
     if not quick:
         cs += [
